@@ -38,8 +38,6 @@ First(ls) == LET f == SelectSeq(ls, LAMBDA t : ~t[2]) IN IF Len(f) = 0 THEN "" E
 
 \* (kind, position) variants on n wires; unwired kinds carry position 0
 Variants(n) == {<<k, 0>> : k \in InvKinds \ WiredKinds} \cup {<<k, p>> : k \in WiredKinds, p \in 1..n}
-SwapKinds == {"A", "BD", "C"}
-InDomain(kind, pos, w) == kind \in SwapKinds => w[pos] \in {0, 3}
 
 \* ---------------------------------------------------- matrix definitions
 MConj(aa) == Bind(aa, LAMBDA a : [k |-> a.k, e |-> TLCEval([r \in 1..Len(a.e) |-> TLCEval([q \in 1..Len(a.e[r]) |-> Conj(a.e[r][q])])])])
@@ -102,7 +100,7 @@ SentLaws(n, es, lam, fresh) ==
             <<"combination-in-span", InSpan(comb, rows)>>,
             <<"fresh-word-not-in-span", fresh \notin supp => ~InSpan(SAdd(comb, SWord(fresh)), rows)>>,
             <<"single-word-span", \A w \in supp : (\E q \in DOMAIN es : DOMAIN es[q] = {w}) => InSpan(SWord(w), rows)>>,
-            <<"prim-parallel", \A q \in DOMAIN es : SIsZero(es[q]) \/ InSpan(SPrim(es[q]), EchelonOf(<<es[q]>>))>> >>)))
+            <<"primitive-multiple-in-span", \A q \in DOMAIN es : InSpan(SPrim(es[q]), rows)>> >>)))
 SentResult(i) == Bind(SentCase(i), LAMBDA k : Bind(TLCEval([q \in DOMAIN k.sp |-> SFromPairs(k.sp[q])]), LAMBDA es :
    [bad |-> SentLaws(k.n, es, k.lam, k.fresh), out |-> [kind |-> "sent", i |-> i, n |-> k.n]]))
 
